@@ -301,3 +301,75 @@ func TestChanBulk(t *testing.T) {
 		st.Case(trace, snaps.Load() > 10, fmt.Sprintf("batch:%d", batch))
 	})
 }
+
+// TestChanDoneLane — "once Done is closed nothing more is taken from the source" (C13), as a race lane: many
+// short-lived Channels over one well-filled buffered source, each closed by cancelling the context it was built on
+// (or by Close) at a sweeping offset while another goroutine loops Get. An observer waits for Done, notes how many
+// values are left in the source, and after the getter has stopped the count must be the same.
+func TestChanDoneLane(t *testing.T) {
+	st := vkit.For("chandone")
+	rapid.Check(t, func(t *rapid.T) {
+		rounds := rapid.SampledFrom([]int{60, 200, 500}).Draw(t, "rounds")
+		off := rapid.IntRange(0, 299).Draw(t, "offset")
+		byClose := rapid.IntRange(0, 3).Draw(t, "byClose") == 0
+		commitEvery := rapid.SampledFrom([]int{0, 1, 8}).Draw(t, "commitEvery")
+		trace := []string{fmt.Sprintf("rounds=%d offset=%d byClose=%v commitEvery=%d", rounds, off, byClose, commitEvery)}
+		vkit.CaseStart(func() string { return strings.Join(trace, " ; ") })
+		src := make(chan int, 256)
+		var dummy atomic.Int64
+		next := 0
+		for r := 0; r < rounds; r++ {
+			for len(src) < 128 {
+				next++
+				src <- next
+			}
+			ctx, cancel := context.WithCancel(context.Background())
+			ch, err := bigbuff.NewChannel(ctx, 20*time.Microsecond, src)
+			if err != nil {
+				t.Fatalf("harness: %v", err)
+			}
+			var wg sync.WaitGroup
+			wg.Add(1)
+			go func() {
+				defer wg.Done()
+				for i := 1; ; i++ {
+					if _, err := ch.Get(context.Background()); err != nil {
+						return
+					}
+					if commitEvery > 0 && i%commitEvery == 0 {
+						_ = ch.Commit()
+					}
+				}
+			}()
+			for i := (off + r*7) % 300; i > 0; i-- {
+				_ = dummy.Load()
+			}
+			if byClose {
+				_ = ch.Close()
+			} else {
+				cancel()
+			}
+			// busy-wait for Done (no wake-up latency: the count is taken within nanoseconds of the close)
+			done := ch.Done()
+			for spins := 1; ; spins++ {
+				select {
+				case <-done:
+				default:
+					if spins&0xfffff == 0 {
+						runtime.Gosched()
+					}
+					continue
+				}
+				break
+			}
+			left := len(src)
+			wg.Wait()
+			if now := len(src); now != left {
+				vkit.Fail(t, "C13+C12/taken-after-done", "round %d: %d values were left in the source when Done was seen closed, %d after the last Get had returned: %d value(s) were taken from the source after Done was closed\ncase: %v", r, left, now, left-now, trace)
+			}
+			cancel()
+			_ = ch.Close()
+		}
+		st.Case(trace, true, map[bool]string{true: "by-close", false: "by-parent-cancel"}[byClose])
+	})
+}
